@@ -233,7 +233,7 @@ P('C18', claimed=True, level='other',
               'inherited from python-osc are recorded as known findings.'))
 
 P('C19', claimed=True, level='other',
-  contracts=['synth_envelope'], drivers=['vf.drivers.C19'],
+  contracts=['synth_envelope', 'base_utils'], drivers=['vf.drivers.C19'],
   level_text=('Shape-name table and curve values are exhaustive finite obligations on the real '
               'Env._shape_number/_curve_value; the array layout, the eleven constructors, client-side '
               'evaluation (breakpoints, betweenness, hold) and the EnvGen inputs in definition bytes are decided '
